@@ -120,13 +120,20 @@ Definition shortest_digits (x : dy) : option (Z * Z) :=
     | None => None
     end in
   (fix go (fuel : nat) (n : Z) := match fuel with O => None | S f => match try n with Some r => Some r | None => go f (n + 1) end end) 18%nat 1.
+(* a shortest representation has no trailing zero digit: 10 * 10^t is 1 * 10^(t+1) (met when the value lies just below a power of ten) *)
+Fixpoint strip10 (fuel : nat) (D t : Z) : Z * Z :=
+  match fuel with
+  | O => (D, t)
+  | S f => if (negb (D =? 0) && (D mod 10 =? 0))%bool then strip10 f (D / 10) (t + 1) else (D, t)
+  end.
 (* Rust {} for f64: shortest round-trip digits, positional notation *)
 Definition fmt_shortest (neg_zero : bool) (x : dy) : list ascii :=
   let '(m, e) := x in
   if m =? 0 then (if neg_zero then ["-"%char; "0"%char] else ["0"%char]) else
   match shortest_digits x with
   | None => ["?"%char]
-  | Some (D, t) =>
+  | Some (D0, t0) =>
+    let '(D, t) := strip10 20 D0 t0 in
     let sgn := if m <? 0 then ["-"%char] else [] in
     if 0 <=? t then (sgn ++ show_Zpos (D * 10 ^ t))%list
     else let P := 10 ^ (- t) in let ip := D / P in let fp := D mod P in
